@@ -65,6 +65,11 @@ CHECKS = {
                 text='Partial (stated): on one symbolic cell per shape the real SymbolicAssembler / BilinearOperatorAssembler / LinearFunctionalAssembler / DomainAssembler jobs are executed; z3 decides classic == job route, Laplace row sums = 0, symmetry, sum of mass entries = sum_q w_q detJ(x_q), alpha-scaled repeated assembly, and for Lagrange1 that every entry equals an independent cubature sum of the textbook integrand. "Equals the integral" = this identity composed with C14 (rule exactness).',
                 note='Trusted: SymReal, z3 5.1.0, hand-written reference P1/Q1 basis + adjugate Jacobian inverse in the oracle. Several rational-function identities on general cells time out in the quick tier (inconclusive, listed). Outside: multi-cell scatter, voxel assemblers (float/double instantiations only), Burgers/defo assemblers, threaded routes (C17): the two seeded changes for C16 (voxel Poisson kernel, Burgers SD term) are NOT detected.',
                 ref='3/C16'),
+    'C17': dict(cat='model_checking', engine='E3',
+                technique='own IR symbolic executor on the real DomainAssembler compile step with symbolic threading strategy and worker count (solver-guided forking over every value); partition / adjacency / two-layers-per-worker oracles per path',
+                text='Partial (stated): for small quadrilateral meshes (strips, grids, L shape, disconnected, corner contact; all cells or a subset) the real graph / layer / thread-layer / colour builders are executed for every strategy and every requested worker count 0..10: no abort, every selected cell listed once, vertex-adjacent cells in consecutive layers resp. different colours, every worker owns >= 2 consecutive layers.',
+                note='Trusted: clang-14 IR, irsym executor (validated against ASan native build), z3 5.1.0. One defect found and fixed (out_of_range for meshes with < 3 layer entries). NOT covered: thread interleavings, fence handshake, race freedom at run time, result equality (seeded change "fences not reset on repeated jobs" is not detected), the known one-worker XASSERT in _work_single (needs real threads).',
+                ref='3/C17'),
     'C18': dict(cat='other', engine='E2',
                 technique='bounded symbolic execution of the real refinery + GridTransfer assembly on one coarse simplex from a 1-3 parameter symbolic affine family; z3 decides interpolation-matrix, transpose and matrix-free identities',
                 text='Partial, restricted (stated): one coarse triangle (thorough: tetrahedron) refined by the real StandardRefinery; Lagrange1 / Discontinuous P0,P1 (thorough: Lagrange2): prolongation rows sum to 1, Lagrange1 entries equal the coarse basis values at fine nodes, restriction = transpose, LAFEM::Transfer prol/rest/trunc and matrix-free prolongation equal the assembled matrices for all vectors.',
